@@ -187,7 +187,24 @@ pub fn check_index(
         model,
         alt,
         tally,
-    )
+    )?;
+    // the bf16 entry point `search`: same oracle, the query being the
+    // bf16-rounded vector; one search per query with k = n + 1
+    if alt.is_none() {
+        let k = model.len() + 1;
+        let mut queries: Vec<Vec<f32>> = model.live.values().cloned().collect();
+        queries.extend(ood_queries(dim));
+        for q in &queries {
+            let qb: Vec<half::bf16> = q.iter().map(|x| half::bf16::from_f32(*x)).collect();
+            let qf: Vec<f32> = qb.iter().map(|x| x.to_f32()).collect();
+            tally.searches += 1;
+            let res = index
+                .search(&qb, k)
+                .map_err(|e| Fail::new("search_error", format!("search({qf:?} as bf16, {k}) failed: {e}")))?;
+            check_result(metric, &qf, k, &res, &|id| model.live.get(&id).cloned().into_iter().collect())?;
+        }
+    }
+    Ok(())
 }
 
 /// The same oracle over any search entry point (`search(query, k)`) and
